@@ -49,8 +49,10 @@ impl<'i> super::ExecutableInstruction<'i> for ApMap<'i> {
         // https://github.com/fluencelabs/aquavm/issues/216
         let result = joinable!(apply_to_arg(&self.value, exec_ctx, trace_ctx, true), exec_ctx, ())?;
 
-        let merger_ap_result = to_merger_ap_map_result(&self, trace_ctx)?;
+        // the key must be resolved before the trace is touched as well: a key of an unsupported type
+        // is a catchable error, and an instruction that fails must not have consumed a state
         let key = joinable!(resolve_key_if_needed(&self.key, exec_ctx, self.map.name), exec_ctx, ())?;
+        let merger_ap_result = to_merger_ap_map_result(&self, trace_ctx)?;
         populate_context(key, &self.map, &merger_ap_result, result, exec_ctx)?;
         trace_ctx.meet_ap_end(ApResult::stub());
 
